@@ -45,6 +45,15 @@ structure FirstInv (s : App) (done : List (Nat × Nat)) (acc : LoopAcc) : Prop w
   upsNodup : (acc.updates.map (·.1)).Nodup
   count : acc.count = candCount s done
   lastSub : acc.last.Sublist s.last
+  tot : acc.total = idxPow s done
+  upsSum : sumInts (acc.updates.map (·.2)) ≤ acc.total
+
+theorem idxPow_append (s : App) : ∀ (a b : List (Nat × Nat)), idxPow s (a ++ b) = idxPow s a + idxPow s b
+  | [], b => by simp [idxPow]
+  | e :: a, b => by simp only [List.cons_append, idxPow, idxPow_append s a b]; omega
+
+theorem sumInts_snoc (l : List Int) (x : Int) : sumInts (l ++ [x]) = sumInts l + x := by
+  simp [sumInts, List.foldl_append]
 
 theorem aerase_sublist {α : Type} (k : Nat) : ∀ l : List (Nat × α), (aerase k l).Sublist l
   | [] => List.Sublist.slnil
@@ -94,6 +103,8 @@ theorem firstInv_init (s : App) : FirstInv s [] ⟨s, s.last, [], 0, 0, 0⟩ whe
   upsNodup := by simp
   count := by simp [candCount]
   lastSub := List.Sublist.refl _
+  tot := rfl
+  upsSum := by simp [sumInts]
 
 
 theorem bondIfNeeded_key (s : App) (v : Val) : (s.bondIfNeeded v).2.1.key = v.key := by
@@ -162,7 +173,9 @@ theorem first_step_noncand (s : App) (done : List (Nat × Nat)) (e : Nat × Nat)
       count := by
         rw [candCount_append, hinv.count]
         simp [candCount, hv, hc]
-      lastSub := hinv.lastSub }
+      lastSub := hinv.lastSub
+      tot := by rw [idxPow_append, ← hinv.tot]; simp [idxPow, hv, hc]
+      upsSum := hinv.upsSum }
 
 
 /-- a candidate entry: the loop visits it; the invariant extends to the longer prefix -/
@@ -345,7 +358,16 @@ theorem first_step_cand (s : App) (hp : PreLoop s) (done rest : List (Nat × Nat
     count := by
       rw [candCount_append, hinv.count]
       simp [candCount, hv, hc]
-    lastSub := (aerase_sublist _ _).trans hinv.lastSub }
+    lastSub := (aerase_sublist _ _).trans hinv.lastSub
+    tot := by
+      rw [idxPow_append, ← hinv.tot]
+      simp only [idxPow, hv, hc, ↓reduceIte, cur]; omega
+    upsSum := by
+      have hnn : 0 ≤ cur v := by unfold cur; omega
+      have := hinv.upsSum
+      cases changed
+      · simp only [Bool.false_eq_true, ↓reduceIte]; omega
+      · simp only [↓reduceIte, List.map_append, List.map_cons, List.map_nil, sumInts_snoc]; omega }
 
 
 def candEntry (s : App) (e : Nat × Nat) : Bool := match s.getVal e.2 with | some v => cand v | none => false
